@@ -161,7 +161,10 @@ def worker_many(case, seed):
         log = []
         for a, p in zip(sel, pops):
             a.current_population = p
-            a.population_fed = 0
+            # whatever last month's feeding left behind (the month loop never resets it): arbitrary
+            a.population_fed = E.real("fed_last_month_" + a.animal_type)
+            E.assume(a.population_fed >= 0)
+            E.assume(a.population_fed <= 2 * p)
             a.population_starving_pre_slaughter = []
             orig = type(a).feed_the_species
 
@@ -191,8 +194,8 @@ def worker_many(case, seed):
             req = a.net_energy_required_per_month() * a.current_population
             dl = (gb - ga) * a.digestion_efficiency["grass"] + (fb - fa) * a.digestion_efficiency["feed"]
             E.check("delivered <= required (each species)", dl <= req + tol)
-            E.check("ruminant flag as in table", isr == (a in rums))
-            if not isr:
+            E.check("grass-eligible exactly when the species table says ruminant (list built by main())", isr == (a.digestion_type == "ruminant"), info="%s is a %s" % (a.animal_type, a.digestion_type))
+            if a.digestion_type != "ruminant":
                 E.check("non-ruminant takes no grass", gb == ga)
             earlier_met = conj([x[0].NE_balance.kcals == 0 for x in log[:k]])
             earlier_rum_met = conj([x[0].NE_balance.kcals == 0 for x in log[:k] if x[5]])
@@ -201,6 +204,11 @@ def worker_many(case, seed):
             E.check("fed in [0, herd]", conj([a.population_fed >= 0, a.population_fed <= a.current_population]))
             E.check("starving = herd - fed >= 0", conj([a.population_starving_pre_slaughter[-1] == a.current_population - a.population_fed,
                                                        a.population_starving_pre_slaughter[-1] >= 0]))
+        for a in sel:
+            req = a.net_energy_required_per_month() * a.current_population
+            dl = zsum([(x[1] - x[3]) * a.digestion_efficiency["grass"] + (x[2] - x[4]) * a.digestion_efficiency["feed"] for x in log if x[0] is a] + [0])
+            if req > 0:
+                E.check("a species that receives no energy this month has nobody counted as fed (whatever was counted last month)", implies(dl <= 0, a.population_fed == 0), info=a.animal_type)
     E.explore(h)
     return E.summary()
 
@@ -214,13 +222,32 @@ def replay_many(case, cx):
     pops = [float(a.population[0]) * s for a, s in zip(sel, case.get("scale", [1.0] * len(sel)))]
     m = vlib.model_floats(cx["model"])
     g, f = m["grass"], m["feed"]
+    served = {}
     for a, p in zip(sel, pops):
         a.current_population = p
-        a.population_fed = 0
+        a.population_fed = m.get("fed_last_month_" + a.animal_type, 0.0)
         a.population_starving_pre_slaughter = []
-    fo, go = ap.AnimalPopulation.feed_animals(sel, rums, _food(fd, f), _food(fd, g))
-    ap.AnimalPopulation.calculate_starving_animals_after_feed(sel)
+        orig = type(a).feed_the_species
+
+        def wrapped(grass_in, feed_in, is_ruminant=False, _a=a, _o=orig):
+            gb, fb = float(grass_in.kcals), float(feed_in.kcals)
+            r = _o(_a, grass_in, feed_in, is_ruminant)
+            served[_a.animal_type] = served.get(_a.animal_type, 0.0) + (gb - float(r[0].kcals)) + (fb - float(r[1].kcals))
+            return r
+        a.feed_the_species = wrapped
+    try:
+        fo, go = ap.AnimalPopulation.feed_animals(sel, rums, _food(fd, f), _food(fd, g))
+        ap.AnimalPopulation.calculate_starving_animals_after_feed(sel)
+    finally:
+        for a in sel:
+            del a.feed_the_species
     bad = []
+    for a in sel:
+        if (a in ruminants) != (a.digestion_type == "ruminant"):
+            bad.append("%s is a %s but main() %s it on the grass-eligible list" % (a.animal_type, a.digestion_type, "puts" if a in ruminants else "does not put"))
+    for a in sel:
+        if served.get(a.animal_type, 0.0) <= 0 and a.net_energy_required_per_month() * a.current_population > 0 and a.population_fed != 0:
+            bad.append("%s received no energy this month but %r animals are counted as fed (left over from an earlier month)" % (a.animal_type, a.population_fed))
     tol = 1e-9 * (1 + f + g)
     if not (-tol <= fo.kcals <= f + tol) or not (-tol <= go.kcals <= g + tol):
         bad.append("resources left outside [0, supplied]")
@@ -330,7 +357,10 @@ def main(tier, seed, only=None):
     thorough = tier == "thorough"
     ap, fd = _mods()
     countries, missing = herd.species_cover(4 if not thorough else 8)
-    validate_encoding(rep)
+    try:
+        validate_encoding(rep)
+    except Exception as e:   # noqa  the real code raised on a concrete validation sample: the symbolic groups still run and decide; without a violation the run is inconclusive
+        rep.fail_inconclusive("concrete validation of the encoding could not run: %s: %s" % (type(e).__name__, str(e)[:200]))
     one, seen = [], set()
     many, order = [], []
     for c in countries + (["WOR"] if thorough else []):
